@@ -167,6 +167,10 @@ def handleMon (j : Json) : R Json := do
       | .null => pure none
       | x => do pure (some (← cpsOf x))
     pure (jBool (pickOk l p))
+  | "tempshape" => do
+    -- the hypothesis of `C06_pick_never_temp` decided on names the real `_make_tmp` produced
+    let ns ← (← fldArr j "names").toList.mapM cpsOf
+    pure (jBool (ns.all isAtomicTemp))
   | "fixpoint" => do
     let b ← decBounds j
     let i ← decWriteIn (← fld j "in")
